@@ -183,6 +183,12 @@ func (z *zmodemTransfer) handleZmodemError(msg string) {
 	}
 
 	z.writeMessage(msg)
+
+	if z.cmd.Load() == nil {
+		// no helper whose exit would arm the cleanup timer: arm it here, or a quiet server would
+		// leave the session (and the keyboard) locked for ever
+		z.resetCleanupTimer()
+	}
 }
 
 func (z *zmodemTransfer) handleServerOutput(buf []byte) bool {
